@@ -940,3 +940,34 @@ func init() {
 		c.Expect(1, n, "limbo.update calls in reorg")
 	})
 }
+
+func init() {
+	extendProp("C38", "Every block that becomes the head outside reorg's own loop is announced: in writeBlockAndSetHead, writeKnownBlock and SetCanonical each writeHeadBlock is followed, on every path to a successful return, by a send on chainFeed (the ChainEvent the log and filter subsystems learn added blocks from).", nil, func(c *Ctx) {
+		c.Rule("EVENT/C38.headannounced")
+		n := 0
+		for _, fn := range []string{"(*BlockChain).writeBlockAndSetHead", "(*BlockChain).writeKnownBlock", "(*BlockChain).SetCanonical"} {
+			f := c.TryFn("core", fn)
+			if f == nil {
+				continue
+			}
+			var sends []Site
+			eachInstr(f, func(in ssa.Instruction) {
+				call, ok := in.(*ssa.Call)
+				if !ok || len(call.Call.Args) == 0 {
+					return
+				}
+				cal := call.Call.StaticCallee()
+				if cal == nil || cal.Name() != "Send" {
+					return
+				}
+				if fa, ok := call.Call.Args[0].(*ssa.FieldAddr); ok && fieldAddrName(fa) == "core.BlockChain.chainFeed" {
+					sends = append(sends, Site{f, in})
+				}
+			})
+			heads := c.Calls(f, "(*core.BlockChain).writeHeadBlock")
+			n += len(heads)
+			c.Followed("announced/"+fn, f, heads, "bc.writeHeadBlock(block)", sends, "bc.chainFeed.Send(ChainEvent{…})", c.SuccessReturns(f))
+		}
+		c.Expect(3, n, "writeHeadBlock call sites outside reorg")
+	})
+}
